@@ -1,0 +1,55 @@
+// Licensed to Apache Software Foundation (ASF) under one or more contributor
+// license agreements. See the NOTICE file distributed with
+// this work for additional information regarding copyright
+// ownership. Apache Software Foundation (ASF) licenses this file to you under
+// the Apache License, Version 2.0 (the "License"); you may
+// not use this file except in compliance with the License.
+// You may obtain a copy of the License at
+//
+//     http://www.apache.org/licenses/LICENSE-2.0
+//
+// Unless required by applicable law or agreed to in writing,
+// software distributed under the License is distributed on an
+// "AS IS" BASIS, WITHOUT WARRANTIES OR CONDITIONS OF ANY
+// KIND, either express or implied.  See the License for the
+// specific language governing permissions and limitations
+// under the License.
+
+//go:build verif
+
+// Contracts for the verification harness (comment-only; compiled only with -tags verif).
+// Syntax: see /verif/DESIGN.md §2.2.
+
+package timestamp
+
+//@ property C07 C06
+//
+// time.Time is an integer number of nanoseconds. member(t, x): instant x lies in range t.
+//@ spec func member(t TimeRange, x int64) bool =
+//@     (t.Start < x || (t.Start == x && t.IncludeStart)) && (x < t.End || (x == t.End && t.IncludeEnd))
+//
+//@ func TimeRange.Before
+//@   mode int
+//@   ensures  whole: result == ite(t.IncludeEnd, t.End < other, t.End <= other)
+//@ func TimeRange.Contains
+//@   mode int
+//@   requires t.Start < t.End
+//@   ensures  member: result == member(t, unixNano)
+//@ func TimeRange.Overlapping
+//@   mode int
+//@   ensures  formula: result == ite(t.Start == other.End, t.IncludeStart && other.IncludeEnd, ite(other.Start == t.End, t.IncludeEnd && other.IncludeStart, t.Start <= other.End && other.Start <= t.End))
+//
+// "Before" means every instant of the range is earlier; an overlap test never misses a common instant; two half-open
+// ranges [s1,e1) [s2,e2) with e1 <= s2 have no common instant.
+//@ lemma before_means_all_earlier(t TimeRange, other int64, x int64)
+//@   mode int
+//@   requires ite(t.IncludeEnd, t.End < other, t.End <= other) && member(t, x)
+//@   ensures  x < other
+//@ lemma overlap_is_complete(t TimeRange, o TimeRange, x int64)
+//@   mode int
+//@   requires member(t, x) && member(o, x)
+//@   ensures  ite(t.Start == o.End, t.IncludeStart && o.IncludeEnd, ite(o.Start == t.End, t.IncludeEnd && o.IncludeStart, t.Start <= o.End && o.Start <= t.End))
+//@ lemma halfopen_disjoint(a TimeRange, b TimeRange, x int64)
+//@   mode int
+//@   requires a.IncludeStart && !a.IncludeEnd && b.IncludeStart && !b.IncludeEnd && a.End <= b.Start
+//@   ensures  !(member(a, x) && member(b, x))
